@@ -261,3 +261,9 @@ Example C08_global_nonvacuous :
     = [(12, 0, 3); (1, 2, 2); (1, 1, 1); (1, 0, 0)] /\
   nonce_of (run g_init C08_example_run) 42 = 4.
 Proof. vm_compute. repeat split. Qed.
+
+(* assumptions of the theorems above that had no report next to them *)
+Print Assumptions C08_pool_bounds_pinned.
+Print Assumptions C08_transact_all_or_nothing.
+Print Assumptions C08_drained_entries_shape.
+Print Assumptions C08_finalise_sweeps_expired.
